@@ -298,3 +298,10 @@ Theorem C09_no_shared_request_state :
   C09Static.write_sites = ["__init__._analyse_mtime"%string; "base._atomic_write"%string; "upload._upload_all_nonatomic"%string].
 Proof. exact (conj C09Static.Gen_no_shared_mutation C09Static.Gen_write_sites). Qed.
 Print Assumptions C09_no_shared_request_state.
+
+(* A request that cannot obtain the storage lock (flock fails: ENOLCK, ENOTSUP, ...) must FAIL, never run unlocked:
+   no except clause around the acquisition swallows the failure (regenerated scan; the runtime counterpart injects
+   the errno at flock() of a second instance while the first holds the lock). *)
+Theorem C09_lock_failure_propagates : C09Static.lock_swallow_sites = [].
+Proof. exact C09Static.Gen_lock_failure_propagates. Qed.
+Print Assumptions C09_lock_failure_propagates.
